@@ -62,6 +62,14 @@ def _mk_resolver(T, fname):
     return resolver
 
 
+def _mk_source(T, fname):
+    async def source(parent, args, ctx, info):
+        async for ev in ctx["world"].source(T, fname, parent, args, ctx, info):
+            yield ev
+    source.__name__ = "src_%s_%s" % (T, fname)
+    return source
+
+
 def _mk_type_resolver(level, label):
     def type_resolver(result, ctx, info, abstract_type):
         w = ctx["world"]
@@ -144,6 +152,9 @@ class Bundle:
                         Resolver("%s.%s" % (t.name, f.name), schema_name=sn, **kw)(_mk_resolver(t.name, f.name))
             elif t.kind in ("INTERFACE", "UNION") and t.type_resolver:
                 TypeResolver(t.name, schema_name=sn)(_mk_type_resolver("tr", t.name))
+        if s.subscription:
+            for f in s.types[s.subscription].fields.values():
+                Subscription("%s.%s" % (s.subscription, f.name), schema_name=sn)(_mk_source(s.subscription, f.name))
 
     async def build(self):
         self.register()
